@@ -233,6 +233,7 @@ func apply(a arrays.Array2D[int], g grid, w, h int, o op, val int) (sig, msg str
 func main() {
 	ev.GuardFor("C08")
 	r := ev.Start("C08")
+	defer r.FinishOnPanic()
 	e = &enum.E{R: r}
 	maxDim := ev.Pick(r, 4, 5)
 	pairDim := ev.Pick(r, 3, 4)
